@@ -130,6 +130,35 @@ func c07ConsolidateOracle(inputs ast.Schemas, result ast.Schemas, err error) str
 	if n != len(first) {
 		return "FAIL result has extra definitions"
 	}
+	// one schema per package, in order of first appearance; the entry point of a package is the first
+	// non-empty entry point of its inputs (Merge fills an empty one and keeps a non-empty one)
+	var order []string
+	entry := map[string]*ast.Schema{}
+	seenPkg := map[string]bool{}
+	for _, in := range inputs {
+		if !seenPkg[in.Package] {
+			seenPkg[in.Package] = true
+			order = append(order, in.Package)
+		}
+		if entry[in.Package] == nil && in.EntryPoint != "" {
+			entry[in.Package] = in
+		}
+	}
+	if len(result) != len(order) {
+		return fmt.Sprintf("FAIL result has %d schemas for %d packages", len(result), len(order))
+	}
+	for i, sch := range result {
+		if sch.Package != order[i] {
+			return "FAIL result packages are not in order of first appearance: position " + fmt.Sprint(i) + " holds " + sch.Package + ", want " + order[i]
+		}
+		wantEP, wantT := "", virType(ast.Type{})
+		if in := entry[sch.Package]; in != nil {
+			wantEP, wantT = in.EntryPoint, virType(in.EntryPointType)
+		}
+		if sch.EntryPoint != wantEP || virType(sch.EntryPointType) != wantT {
+			return "FAIL entry point of package " + sch.Package + " is " + virQuote(sch.EntryPoint) + ", want the first non-empty one of its inputs " + virQuote(wantEP)
+		}
+	}
 	return "ok"
 }
 
